@@ -33,7 +33,7 @@ def main():
         if step.get("store", "").startswith("_REL@"):
             # ONE Memory("relcache") object (and one wrapper) used from several working directories
             step = dict(step, store="_REL@")
-        key = (step["f"], step.get("kind", "function"), tuple(step.get("ignore") or ()), bool(step.get("compress")), step.get("frozen"), step.get("store", ""), bool(step.get("wrapped")), bool(step.get("redecorate")), int(step.get("verbose", 0)))
+        key = (step["f"], step.get("kind", "function"), tuple(step.get("ignore") or ()), bool(step.get("compress")), step.get("frozen"), step.get("store", ""), bool(step.get("wrapped")), bool(step.get("redecorate")), bool(step.get("pickled")), int(step.get("verbose", 0)))
         if key not in wrappers:
             ck = (bool(step.get("compress")), step.get("store", ""), int(step.get("verbose", 0)))
             if ck not in mems:
@@ -55,6 +55,10 @@ def main():
             w0 = mems[ck].cache(target, ignore=list(step["ignore"])) if step.get("ignore") else mems[ck].cache(target)
             if step.get("redecorate"):
                 w0 = mems[ck].cache(w0)           # Memory.cache applied to an already cached function
+            if step.get("pickled"):
+                # the wrapper travelled through pickle (as when it is sent to a worker process)
+                import pickle
+                w0 = pickle.loads(pickle.dumps(w0))
             wrappers[key] = (w0, target)
         return wrappers[key]
 
